@@ -30,8 +30,13 @@ Succ(heap, r) == LET o == heap[r + 1] IN
                       {o.fields[i][2].v : i \in {i \in 1..Len(o.fields) : o.fields[i][2].k = "ref"}}
 RECURSIVE Closure(_,_)
 Closure(heap, S) == LET S2 == S \cup UNION {Succ(heap, r) : r \in S} IN IF S2 = S THEN S ELSE Closure(heap, S2)
-\* v reaches a reference that lies on a cycle: rendering v does not terminate
-Cyclic(heap, v) == v.k = "ref" /\ \E r \in Closure(heap, {v.v}) : r \in Closure(heap, Succ(heap, r))
+\* v reaches a reference that lies on a cycle: rendering v does not terminate.
+\* Decided by peeling: repeatedly remove from the reachable set the cells all of whose successors are already
+\* removed; the value is acyclic iff everything can be removed.
+RECURSIVE Peel(_,_)
+Peel(heap, S) == LET L == {r \in S : Succ(heap, r) \cap S = {}} IN
+                 IF S = {} THEN FALSE ELSE IF L = {} THEN TRUE ELSE Peel(heap, S \ L)
+Cyclic(heap, v) == v.k = "ref" /\ Peel(heap, Closure(heap, {v.v}))
 
 ------------------------------------------------------------------------------
 \* rendering (the value is acyclic)
